@@ -4,6 +4,8 @@ CONSTANTS
   MaxVotes = 10000
   MaxParts = 1601
   Weak_BitArrayOpsAssumeEqualSize = FALSE
+  Weak_LastCommitNilDeref = FALSE
+  Weak_SetRoundRecreatesRound = FALSE
 INIT Init
 NEXT Next
 CHECK_DEADLOCK FALSE
